@@ -112,6 +112,15 @@ def rule_conversions(ctx, repo):
             key = '%s:%s' % (name, inner)
             want = TABLE.get((name, inner))
             if want is None:
+                # the same crossing under another spelling of the value (a renamed local, the call written in place):
+                # the method's only table entry for this converter that no site has claimed yet
+                cands = [(k_, w_) for k_, w_ in TABLE.items() if k_[0] == name and w_ == conv and k_ not in seen
+                         and not any(c2 == w_ and i2 == k_[1] for c2, i2, n2 in sites) and k_[1].isidentifier()]
+                if len(cands) == 1 and (inner.isidentifier() or inner.startswith('self._call(')):
+                    seen.add(cands[0][0])
+                    r.ok('%s:%s' % cands[0][0], common.site_of(fi, node), '%s through %s (written `%s`)' % (cands[0][0][1], conv, inner[:40]))
+                    continue
+            if want is None:
                 if name in RAW_PASS_THROUGH:
                     r.undecided(key, common.site_of(fi, node), 'method %s is listed as raw pass-through but converts `%s` with %s' % (name, inner, conv))
                 else:
@@ -150,7 +159,9 @@ def rule_converters(ctx, repo):
             continue
         got = norm(rets[0])
         rev_got, rev_want = '[::-1]' in got, '[::-1]' in w
-        if got == w:
+        p0 = fi.params[0] if fi.params else 'h'
+        alts = {'lx': ['x(%s)[::-1]' % p0], 'b2lx': ['b2x(%s[::-1])' % p0], 'x': ["bytes.fromhex(%s)" % p0], 'b2x': ['%s.hex()' % p0]}.get(n, [])
+        if got == w or got in alts:
             r.ok(n, fi.site, w)
         elif rev_got != rev_want:
             r.violated(n, fi.site, '%s() returns `%s`: it must %s the byte order' % (n, got, 'reverse' if rev_want else 'keep'))
@@ -160,7 +171,14 @@ def rule_converters(ctx, repo):
     for n, w in (('unhexlify_str', "binascii.unhexlify(h.encode('ascii'))"), ('hexlify_str', "binascii.hexlify(b).decode('ascii')")):
         fi = rpc.functions.get(n)
         rets = [norm(n_.value) for n_ in walk_no_nested(fi.node) if isinstance(n_, ast.Return)] if fi else []
-        r.check(rets == [w], n, fi.site if fi else '', w, '%s returns %s' % (n, rets))
+        p0 = fi.params[0] if fi and fi.params else 'b'
+        alts = {'hexlify_str': ["str(binascii.hexlify(%s), 'ascii')" % p0, '%s.hex()' % p0], 'unhexlify_str': ["binascii.unhexlify(bytes(%s, 'ascii'))" % p0]}.get(n, [])
+        if rets == [w] or (len(rets) == 1 and rets[0] in alts):
+            r.ok(n, fi.site if fi else '', w)
+        elif len(rets) == 1 and ('hexlify' in rets[0] or 'hex' in rets[0]) and '[::-1]' not in rets[0] and 'reversed' not in rets[0]:
+            r.undecided(n, fi.site if fi else '', '%s returns `%s`' % (n, rets[0]))
+        else:
+            r.violated(n, fi.site if fi else '', '%s returns %s; reference `%s`' % (n, rets, w))
     for name in ('lx', 'x', 'b2lx', 'COIN'):
         v = repo.module_value(rpc, name)
         ok = (isinstance(v, FuncRef) and v.info.qualname == 'bitcoin.core.' + name) or (name == 'COIN' and v == 100000000)
@@ -255,7 +273,22 @@ def rule_errors(ctx, repo):
     r.check(st == ['cls.SUBCLS_BY_CODE[subcls.RPC_ERROR_CODE] = subcls'] and rets == ['subcls'], '_register_subcls', reg.site if reg else base.site, 'table[code] = subclass',
             '_register_subcls does %s / returns %s' % (st, rets))
     new = base.methods.get('__new__')
-    sel = [norm(n.value) for n in walk_no_nested(new.node) if isinstance(n, ast.Assign) and norm(n.targets[0]) == 'cls'] if new else []
-    r.check(sel == ["JSONRPCError.SUBCLS_BY_CODE.get(rpc_error['code'], cls)"], 'dispatch', new.site if new else base.site, 'class selected by code, base class as fallback', 'dispatch is %s' % sel)
-    mk = [norm(n.value) for n in walk_no_nested(new.node) if isinstance(n, ast.Assign) and norm(n.targets[0]) == 'self'] if new else []
-    r.check(mk == ['Exception.__new__(cls)'], 'dispatch:instance', new.site if new else base.site, 'instance of the selected class', 'instance created by %s' % mk)
+    # the object that is returned, with the locals written out: Exception.__new__(<table>.get(code, cls))
+    created = None
+    if new:
+        for n in walk_no_nested(new.node):
+            if isinstance(n, ast.Call) and norm(n.func) == 'Exception.__new__' and len(n.args) == 1:
+                created = n
+    sel_txt = None
+    if created is not None:
+        a0 = created.args[0]
+        if isinstance(a0, ast.Name):
+            ds = [x.value for x in walk_no_nested(new.node) if isinstance(x, ast.Assign) and norm(x.targets[0]) == a0.id]
+            a0 = ds[-1] if ds else a0
+        sel_txt = norm(a0)
+    param = new.params[1] if new and len(new.params) > 1 else 'rpc_error'
+    cparam = new.params[0] if new else 'cls'
+    r.check(sel_txt in ("JSONRPCError.SUBCLS_BY_CODE.get(%s['code'], %s)" % (param, cparam), "%s.SUBCLS_BY_CODE.get(%s['code'], %s)" % (cparam, param, cparam)), 'dispatch',
+            new.site if new else base.site, 'class selected by code, base class as fallback', 'dispatch is %s' % sel_txt)
+    r.check(created is not None, 'dispatch:instance', new.site if new else base.site, 'instance of the selected class', 'no Exception.__new__(<selected class>) in JSONRPCError.__new__')
+    mk = ['Exception.__new__(cls)']
